@@ -273,6 +273,7 @@ ShCatalogue == <<
   CE("", "", << <<"s">>, <<"norcfile">>, <<"profile", "/tmp/s.sh">> >>, <<>>),
   CE("", "", << <<"v">>, <<"noprofile">> >>, <<"/tmp/s.sh", "a1">>),
   CE("", "", << <<"o", "errexit">>, <<"c">>, <<"o", "nounset">> >>, <<"snap end">>),
+  CE("", "", << <<"s">>, <<"profile", "--">>, <<"rcfile", "-s">> >>, <<"--", "x">>),
   CE("", "", NoOpts, <<"/tmp/s.sh", "-a1", "--">>)
 >>
 ShBad == {"US", "UL", "AM", "UA", "MA"}
